@@ -358,6 +358,40 @@ pub fn check_c20a(c: &Concrete, preamble: &str, std_free: bool) -> LayerA {
             ));
         }
     }
+    // every error is reported: a parse-level error that a loaded file shows when it is compiled on its own
+    // must also be reported (located in that file) when the file is compiled as part of the project
+    if let ResultObs::Err(es) = &reference.result {
+        if reference.reads.len() >= 2 {
+            for (path, res) in &reference.reads {
+                if *path == c.main || !matches!(res, crate::exec::ReadRes::Ok { .. }) {
+                    continue;
+                }
+                let text = match c.files.get(path) {
+                    Some(t) => t,
+                    None => continue,
+                };
+                let mut alone = Concrete::new(path);
+                alone.files.insert(path.clone(), text.clone());
+                alone.no_std = c.no_std;
+                alone.hash_seed = c.hash_seed;
+                let ao = execute(&alone);
+                if let ResultObs::Err(aes) = &ao.result {
+                    let own: Vec<&crate::exec::ErrObs> = aes.iter().filter(|e| (e.variant == "SyntaxError" || e.variant == "GitConflictError") && e.file == *path).collect();
+                    // the project may name the file relatively (it does when the main file was given relatively)
+                    let same_file = |e: &crate::exec::ErrObs, a: &crate::exec::ErrObs| e.file == a.file || a.file.ends_with(&format!("/{}", e.file.trim_start_matches("./")));
+                    if let Some(lost) = own.iter().find(|a| !es.iter().any(|e| e.variant == a.variant && same_file(e, a) && e.line == a.line)) {
+                        vs.push(v(
+                            "C20",
+                            "errors-lost",
+                            lost.variant,
+                            format!("{} has a {} on line {} (reported when it is compiled on its own) but the project's error list, {} error(s), does not mention it", path, lost.variant, lost.line, es.len()),
+                        ));
+                        break;
+                    }
+                }
+            }
+        }
+    }
     // accept/reject must not depend on the sink
     let same_verdict = matches!(
         (&out.result, &reference.result),
